@@ -74,14 +74,14 @@ PROPS["C09"] = dict(
     level_note="Trusted: Lean kernel (axioms propext, Classical.choice, Quot.sound at most), the hand transcription Morlock.Model.Score "
                "(checked against the implementation on ~5.5e5 ops per run), float32 order embedding; NaN excluded; int8 edge cases stated explicitly.",
     technique="Lean 4 proof (order embedding + omega) over a hand-written model, differential correspondence impl/model/spec",
-    modules=["Morlock.Props.C09"],
+    modules=["Morlock.Props.C09", "Morlock.Props.C09Edge"],
     streams=["score", "c09win"],
     rule="(c09win: 30 / 600 searches under one-sided windows - the result is a score of the order, the clipped value) all ordered pairs over {256 mate bytes, +inf, -inf, invalid, ~40 float32 keys incl. ±0, subnormals, ±max, ±Inf} "
          "x {less,max,min,antitone,incmono,trichotomy} + sampled triples for transitivity; "
          "a pair is non-trivial and distinct when its two scores differ (keyed by the pair)",
     partial=["NaN is outside the property (constructible scores are finite or ±Inf floats)",
              "int8 edge: neg_antitone excludes Mate=-128, inc_mono excludes Mate=127 and Mate=-128 (theorem int8_edge shows why)",
-             "MateInXScore(0) is constructible but not a valid score (neither below nor above nor equal to a heuristic score): outside the theorems, inside the stream"],
+             "MateInXScore(0) is constructible but not a valid score: outside the ORDER theorems, inside the stream; what Less does with it (and with Invalid) against every partner is proved in Props/C09Edge (incomparable with every heuristic score, above every mate score, hence transitivity fails through it: mate0_breaks_transitivity)"],
     modelled=["eval/score.go: Less, Negate, IncrementMateDistance, MateDistance, Max, Min -> Morlock.Model.Score"],
     exhaustive=True,
     assumptions=["float32 order embedding key(x) (sign-magnitude bits, ±0 -> 0) preserves <, == and unary minus on non-NaN floats"],
